@@ -17,7 +17,7 @@ pub fn run(ctx: &Ctx) -> i32 {
     let trees = families::plain(w);
     let (k0, k1) = (bind::key0(), bind::key1());
     let unrelated_m: Vec<M> = vec![families::plain(3)[5].clone(), M::Wrapped(Box::new(crate::refmodel::tree::leaf_text("zz"))), crate::refmodel::tree::leaf_text("zz"), M::Known(77), crate::refmodel::tree::assertion(crate::refmodel::tree::leaf_text("zp"), crate::refmodel::tree::leaf_text("zo"))];
-    let acc = trees.par_iter().enumerate().map(|(ti, m)| {
+    let acc = trees.par_iter().enumerate().with_max_len(1).map(|(ti, m)| {
         let mut acc = Acc::new();
         acc.inc("bases");
         let e = bind::build(m, 0);
